@@ -75,12 +75,24 @@ def gen_cases(rng, tier):
              'source_delete': rng.chance(0.6)}
         if not star and shape != 4 and rng.chance(0.3):
             c['keynames'] = rng.pick([{'k': 'first name', 'k2': 'dept-id'}, {'k': 'emp no', 'k2': 'e-mail'}, {'k': 'k', 'k2': 'k 2'}])
+        if rng.chance(0.3):
+            # the source declares a primary key of which the join key is only a part (or, given as a string, a substring):
+            # several source rows may share the join key all the same
+            c['spk'] = rng.pick([['k', 'k2'], 'k2', ['k2', 'k'], ['k', 'w']])
         if i % 6 == 5:
             c['kind'] = 'join_self'
         if any(g in ('array', 'set', 'counters') for _, _, g in fields) and rng.chance(0.6):
             # a later row step that adds to every list in the row, in place: each joined row has containers of its own (round 8)
             c['mark'] = True
         cases.append(c)
+    # systematically: sum over a text column (concatenation, documented) in join and join_with_self; a composite / string primary key
+    # on the source with several rows per join key
+    S_ = [{'k': 1, 'k2': 'p', 'v': 5, 'w': 'a'}, {'k': 1, 'k2': 'q', 'v': 6, 'w': 'b'}, {'k': 2, 'k2': 'p', 'v': 7, 'w': 'c'}, {'k': 1, 'k2': 'r', 'v': 8, 'w': None}]
+    T_ = [{'k': 1, 'k2': 'p', 'x': 0}, {'k': 2, 'k2': 'q', 'x': 1}, {'k': 3, 'k2': 'q', 'x': 2}]
+    for kind in ('join', 'join_self'):
+        for spk in (None, ['k', 'k2'], 'k2'):
+            cases.append({'kind': kind, 'S': rows_enc(S_), 'T': rows_enc(T_), 'skey': [['f', 'k']], 'tkey': [['f', 'k']], 'listform': True,
+                          'fields': [['agg1', 'w', 'sum'], ['agg2', 'v', 'sum'], ['out', 'v', 'count']], 'star': None, 'mode': 'half-outer', 'source_delete': True, 'spk': spk})
     # systematically: several target rows in a row with the same key, container-valued aggregates, a later step editing them in place
     for g in ('array', 'set', 'counters'):
         for mode in ('inner', 'half-outer', 'full-outer'):
@@ -172,6 +184,9 @@ def unmark(rows):
 def run_impl(case):
     res = [{'name': 'S', 'fields': [{'name': n, 'type': t} for n, t in S_FIELDS], 'rows': rows_dec(case['S'])},
            {'name': 'T', 'fields': [{'name': n, 'type': t} for n, t in T_FIELDS], 'rows': rows_dec(case['T'])}]
+    if case.get('spk'):
+        kn = case.get('keynames') or {}
+        res[0]['pk'] = kn.get(case['spk'], case['spk']) if isinstance(case['spk'], str) else [kn.get(x, x) for x in case['spk']]
     if case['kind'] == 'join_self':
         res = res[:1]
     if case.get('keynames'):
